@@ -1528,6 +1528,22 @@ func (b *Bitmap) ImportRoaringBits(data []byte, clear bool, log bool, rowSize ui
 	if itr == nil {
 		return 0, nil, errors.New("failed to create roaring iterator, but don't know why")
 	}
+	// Walk the whole payload once before touching b, so that malformed data
+	// is rejected while b is still unchanged (nothing would be logged for a
+	// partially applied import).
+	for {
+		if _, _, _, _, _, itrErr = itr.Next(); itrErr != nil {
+			break
+		}
+	}
+	if itrErr != io.EOF {
+		return 0, nil, itrErr
+	}
+	// the error-free payload is then applied with a fresh iterator
+	itr, err = newRoaringIterator(data)
+	if err != nil {
+		return 0, nil, err
+	}
 
 	rowSet = make(map[uint64]int)
 
